@@ -280,3 +280,29 @@ def memory_rooms_1x1(shape, layout, colors, num_beacons, num_exits, rng):
                 'num_beacons': ('const', 2), 'num_exits': ('const', 3), 'rng': 'Rng'}, kwonly=['rng'], props=['C13', 'C02', 'C08'])
 def memory_rooms_2x2(shape, layout, colors, num_beacons, num_exits, rng):
     memory_rooms_contract(shape, colors, num_beacons, num_exits, rng)
+
+
+# ---------------------------------------------------------------------------------------------------
+# parameter validation of the resets whose bodies are bounded stand-ins: the rejecting paths are proved
+@contract(target=RS + 'crossing', args={'shape': 'Shape', 'num_rivers': 'int', 'object_type': 'Class0', 'rng': 'Rng'},
+          kwonly=['rng'], props=['C02', 'C13'])
+def crossing_rejects_invalid_parameters(shape, num_rivers, object_type, rng):
+    requires(shape.height < 5 or shape.height % 2 == 0 or shape.width < 5 or shape.width % 2 == 0 or num_rivers <= 0)
+    ensures('valueerror', lambda: raised(ValueError))
+    ensures('no-draw', lambda: draws(rng) == 0)
+
+
+@contract(target=RS + 'memory_rooms',
+          args={'shape': 'Shape', 'layout': LAYOUT, 'colors': ('distinct-set', 'Color', 3), 'num_beacons': 'int',
+                'num_exits': 'int', 'rng': 'Rng'}, kwonly=['rng'], props=['C02', 'C13'])
+def memory_rooms_rejects_invalid_parameters(shape, layout, colors, num_beacons, num_exits, rng):
+    requires(Color.NONE in colors or num_beacons < 1 or num_exits < 2)
+    ensures('valueerror', lambda: raised(ValueError))
+    ensures('no-draw', lambda: draws(rng) == 0)
+
+
+@contract(target=RS + 'memory_rooms',
+          args={'shape': 'Shape', 'layout': LAYOUT, 'colors': ('distinct-set', 'Color', 1), 'num_beacons': 'int',
+                'num_exits': 'int', 'rng': 'Rng'}, kwonly=['rng'], props=['C13'])
+def memory_rooms_too_few_colors(shape, layout, colors, num_beacons, num_exits, rng):
+    ensures('valueerror', lambda: raised(ValueError))
